@@ -111,17 +111,19 @@ def _concrete_claim_violated(run: Run, block: Any, tag: str, model: Dict[str, An
         return gi not in ctx.group_indices
     if name == "max_fee":
         return (not ctx.max_fee_unknown) and fld("Fee") > ctx.max_fee
-    if name == "transaction_types":
+    if name.startswith("transaction_types"):
         te, oc = fld("TypeEnum"), fld("OnCompletion")
         types = ctx.transaction_types
-        if te == 1 and T.Pay not in types:
-            return True
-        if te == 4 and T.Axfer not in types:
-            return True
-        if te == 6 and oc == 4 and T.ApplUpdateApplication not in types:
-            return True
-        if te == 6 and oc == 5 and T.ApplDeleteApplication not in types:
-            return True
+        if "[appl]" not in name:
+            if te == 1 and T.Pay not in types:
+                return True
+            if te == 4 and T.Axfer not in types:
+                return True
+        if "[nonappl]" not in name:
+            if te == 6 and oc == 4 and T.ApplUpdateApplication not in types:
+                return True
+            if te == 6 and oc == 5 and T.ApplDeleteApplication not in types:
+                return True
         return False
     for fname, attr in cl.ADDR_CTX_ATTR.items():
         if name == attr:
@@ -344,4 +346,101 @@ def check_exact_int(src: str, prop: str = "C06", unroll: int = 2, run: Optional[
                 sorted(listed_gi), sorted(up_gi if ins_gi else ex_gi))
         if any(i >= maxs for i in listed_gi):
             add("coupling", f"block at line {line}: index listed without a larger size", [sorted(listed_gs), sorted(listed_gi)], None)
+    return findings, st
+
+
+# ---------------------------------------------------------------------------------------------
+# FREE-mode reading of the fee bound (C09)
+# ---------------------------------------------------------------------------------------------
+
+
+def program_int_constants(prog: ts.Prog) -> List[int]:
+    out = set()
+    for ins in prog.ins:
+        if ins.op in ("int", "pushint") and ins.args:
+            v = ts.int_arg(ins.args[0])
+            if v is not None:
+                out.add(v)
+        if ins.op == "intcblock":
+            for a in ins.args:
+                v = ts.parse_int_literal(a)
+                if v is not None:
+                    out.add(v)
+    return sorted(out)
+
+
+def check_fee_free(src: str, prop: str = "C09", exact: bool = False, unroll: int = 2, run: Optional[Run] = None) -> Tuple[List[Finding], ProgStats]:
+    """Direct-check reading of Fee: the largest fee admitted by an accepting FREE path through each block.
+
+    always: tealer's known bound at the block is >= that fee ("credited only if every accepting path is
+    constrained"); exact=True (programs with a single direct Fee check): the bound equals it."""
+    st = ProgStats()
+    prog = ts.tokenize(src)
+    t0 = time.time()
+    if run is None:
+        run = Run(src, detectors=[])
+    st.tealer_s = time.time() - t0
+    cands = {0, 272000, 272001, MAX_UINT64}
+    for c in program_int_constants(prog):
+        for d in (-1, 0, 1):
+            if 0 <= c + d <= MAX_UINT64:
+                cands.add(c + d)
+    order = sorted(cands, reverse=True)
+    best: Dict[int, int] = {}
+    inside: Dict[int, bool] = {}
+    multi = multi_site_subs(prog)
+
+    def on_accept(dom: sx.Z3Dom, res: ts.PathResult, _s: Any) -> None:
+        st.accepting += 1
+        fee = dom.field("Fee", dom.gi)
+        top = None
+        for c in order:
+            if dom.check(fee == c) == "sat":
+                top = c
+                break
+        if top is None:
+            return
+        for pc, _a, entries in res.trace:
+            best[pc] = max(best.get(pc, -1), top)
+            if any(e in multi for e in entries):
+                inside[pc] = True
+
+    def on_any(dom: sx.Z3Dom, res: ts.PathResult, _s: Any) -> None:
+        st.paths += 1
+        if res.cut:
+            st.cut += 1
+
+    try:
+        ex, dom = sx.explore(prog, "FREE", ["Fee"], unroll, on_accept=on_accept, on_any=on_any)
+    except ts.Unsupported as e:
+        st.skipped = f"unsupported opcode {e}"
+        return [], st
+    st.absorb(dom)
+    st.nontrivial = True
+    findings: List[Finding] = []
+    for b in run.function.blocks:
+        line = b.entry_instr.line
+        pcs = [i.idx for i in prog.ins if i.line == line]
+        if not pcs or pcs[0] not in best:
+            continue
+        pc = pcs[0]
+        ctx = run.ctx(b)
+        adm = best[pc]
+        if ctx.max_fee_unknown:
+            if ex.runtime_cmp_governed:
+                continue
+            findings.append(Finding(prop, "free:max_fee_unknown", src,
+                                    f"block at line {line}: bound reported as 'unknown' although Fee is only compared with literal constants", None, None, line,
+                                    "max_fee_unknown", True, True, {"admitted": adm}))
+            continue
+        if ctx.max_fee < adm:
+            findings.append(Finding(prop, "free:max_fee", src,
+                                    f"block at line {line}: fee {adm} is admitted by an accepting direct-check path but the reported bound is {ctx.max_fee}", None, None, line,
+                                    "max_fee", ctx.max_fee, True, {"admitted": adm}))
+        elif exact and not inside.get(pc) and ctx.max_fee != adm and not (ctx.max_fee == MAX_UINT64 and adm >= MAX_UINT64 - 1):
+            # (the unbounded side of a comparison with 2^64-1 is reported as "no bound": not an inexactness
+            #  of the bounded forms the property lists)
+            findings.append(Finding(prop, "exact:max_fee", src,
+                                    f"block at line {line}: single direct check implies the bound {adm}, reported {ctx.max_fee}", None, None, line,
+                                    "max_fee", ctx.max_fee, True, {"admitted": adm}))
     return findings, st
